@@ -25,5 +25,6 @@ Lemma concrete_partition spec d n input outs : 0 < n ->
 Proof.
   intros Hn H. unfold shard_tool_fields in H.
   destruct (parse_key_spec spec) as [ranges|]; [|discriminate].
-  inversion H; subst. exists ranges. split; [reflexivity|]. split; [apply shard_partition; exact Hn|reflexivity].
+  inversion H; subst. exists ranges. split; [reflexivity|]. split; [apply shard_partition; exact Hn|].
+  rewrite shard_tool_fast_eq. reflexivity.
 Qed.
